@@ -354,7 +354,7 @@ func checkC07(w *World) {
 			w.check(P, "R07.3", "substring: end bound of the two-argument form", sl.Pos(), !dep, fmt.Sprintf("the end bound depends on the start position outside the three-argument path: %v (with an infinite end, start + length is NaN for a start of -Infinity and the whole string is lost)", dep))
 		})
 	}
-	w.floor(P, "R07.3", 5)
+	w.floorSites(P, "R07.3", 5)
 
 	// R07.4 translate
 	w.translateShape(P, f)
